@@ -78,7 +78,17 @@ func judge(class string, key []byte, o *fw.Obs) {
 
 	var got string
 	var err error
-	if !o.Try("bech32.Encode", func() { got, err = bech32.Encode(hrp, data) }) {
+	srcBuf := append([]byte(nil), data...)
+	if !o.Try("bech32.Encode", func() {
+		got, err = bech32.Encode(hrp, srcBuf)
+		// the caller reuses its buffer and encodes something else before it looks at the first result
+		for i := range srcBuf {
+			srcBuf[i] ^= 0xa5
+		}
+		if len(srcBuf) <= 40 {
+			_, _ = bech32.Encode("x", srcBuf)
+		}
+	}) {
 		return
 	}
 	iok := err == nil
